@@ -107,3 +107,12 @@ Theorem C01_eof_never_overtakes_data : forall (A : Type) cmax W ls (s : est A),
   erun cmax (e_init A W) ls = Some s -> (p_wire (e_p s) <> [] \/ p_rq (e_p s) <> []) -> estep cmax s EReadEof = None.
 Proof. exact eof_not_before_queued_data. Qed.
 Print Assumptions C01_eof_never_overtakes_data.
+
+(* concurrent RPCs on one tunnel: each stream obtains a prefix of what was submitted on that same
+   stream, however the streams' frames interleave on the shared carrier *)
+From GT Require Import MultiPipe MultiPipeProofs.
+Theorem C01_streams_do_not_mix : forall (A : Type) cmax W K, 0 < K ->
+  forall n ls (m : mst A) i (s : pst A), mrun cmax K (m_init A W n) ls = Some m ->
+  nth_error (m_streams m) i = Some s -> prefix (p_delivered s) (p_submitted s).
+Proof. exact multi_delivered_prefix. Qed.
+Print Assumptions C01_streams_do_not_mix.
